@@ -54,11 +54,11 @@ def m_opt_is(ex, callee, args):
     return Scalar(d.e == want, 'bool')
 def m_opt_copied(ex, callee, args):
     v = args[0]
-    if _is_some(ex, v): return some(copy_val(strip(ex, ex.field_of(v, 'Some', 0, 'T'))))
+    if _is_some(ex, v): return some(copy_val(ex.deref_val(ex.field_of(v, 'Some', 0, 'T'))))      # Option<&T> -> Option<T>: exactly one deref
     return NONE()
 def m_opt_cloned(ex, callee, args):
     v = args[0]
-    if _is_some(ex, v): return some(clone_val(strip(ex, ex.field_of(v, 'Some', 0, 'T'))))
+    if _is_some(ex, v): return some(clone_val(ex.deref_val(ex.field_of(v, 'Some', 0, 'T'))))
     return NONE()
 def m_opt_map(ex, callee, args):
     v = args[0]
